@@ -35,6 +35,7 @@ func init() {
 	Registry["C04"] = C04
 	Registry["C17"] = C17
 	Registry["C19"] = C19
+	Registry["C15"] = C15
 }
 
 func init() { Registry["C13"] = C13 }
